@@ -132,8 +132,8 @@ def gen_script(rng, max_ops, profile):
                 tok = 'w%d' % rng.below(st.n)                      # same id and version, another world
             else:
                 tok = 'x%016x' % (rng.next() | (1 << 35))          # arbitrary pattern with a foreign world id
-            opn = rng.pick(['valid', 'getconst', 'getmut', 'has', 'destroy', 'destroynow', 'remove', 'markdirty', 'archof', 'clone', 'removeshared'])
-            if depth and opn in ('clone', 'removeshared'):
+            opn = rng.pick(['valid', 'getconst', 'getmut', 'has', 'destroy', 'destroynow', 'remove', 'markdirty', 'archof', 'clone', 'clonemap', 'removeshared'])
+            if depth and opn in ('clone', 'clonemap', 'removeshared'):
                 opn = 'valid'
             if opn in ('getconst', 'getmut', 'has', 'markdirty'):
                 lines.append('%s %s %d' % (opn, tok, rng.pick(pals)))
@@ -154,9 +154,9 @@ def gen_script(rng, max_ops, profile):
                     lines.append('remove %d %s %d' % (tid, tok, rng.pick(sp)))
             elif opn == 'removeshared':
                 lines.append('removeshared %s 0' % tok)
-            elif opn == 'clone':
+            elif opn in ('clone', 'clonemap'):
                 if not (tok.startswith('#') and int(tok[1:]) in st.comps):
-                    lines.append('clone %s' % tok)
+                    lines.append('%s %s' % (opn, tok))
             else:
                 lines.append('%s %s' % (opn, tok))
             continue
@@ -309,7 +309,7 @@ def gen_script(rng, max_ops, profile):
             if not hs or depth:
                 continue
             h = rng.pick(hs)
-            lines.append('clone #%d' % h)
+            lines.append('%s #%d' % (rng.pick(['clone', 'clonemap']), h))
             st.comps[st.n] = set(st.comps[h])
             st.shared[st.n] = set(st.shared.get(h, ()))
             st.n += 1
@@ -663,6 +663,7 @@ def profile(name):
         p['dynflags'] = [31, 63, 0, 32]
         p['teardown_anywhere'] = True
         p['threads'] = [0, 1, 2]
+        p['deps'] = 35        # a dependent that arrives with a master (immediately or at a flush) is constructed, once
         p['weights'].update({'lock': 9, 'unlock': 7, 'assign': 18, 'remove': 12, 'clone': 4})
     elif name == 'C05':
         p['threads'] = [1, 2, 3, 4]
